@@ -188,6 +188,11 @@ def decorate(rnd, rows, info):
         while rnd.random() < 0.25:
             out.append(rnd.choice([[], [""], ["", "a comment"], ["  ", "F", "looks like a field"], ["", "", ""], [" \t"]]))
         r = list(r)
+        if not r or r[0].strip() == "":
+            # a comment or blank row of the input itself stays as it is
+            index_map[i] = len(out)
+            out.append(r)
+            continue
         kind = r[0].lower()
         # row marker: case and surrounding blanks
         r[0] = rnd.choice([r[0], r[0].lower(), r[0].upper(), " " + r[0], r[0] + "  ", " " + r[0].lower() + " "])
@@ -266,6 +271,9 @@ def defects(rnd, rows, info):
         return r
     # data format
     yield "no-format-row", [list(x) for x in rows[1:]], 0 if len(rows) > 1 else None
+    # nothing but comments and blank rows: "data format must be specified", reported after the last row
+    yield "no-rows", [], 0
+    yield "only-comments", [["", "a comment"], [], [" ", "", "another"]], 3
     yield "unknown-format", with_row(0, ["D", "Format", "Spreadsheet"]), 0
     yield "duplicate-format", inserted(1, ["D", "Format", FORMAT_NAMES[fmt]]), 1
     yield "first-property-not-format", inserted(0, ["D", "Header", "1"]), 0
